@@ -148,3 +148,37 @@ def gram_to_vectors(G):
     out = np.zeros((n, 3))
     out[:, :n] = X[:, ::-1][:, :3] if n <= 3 else X[:, -3:]
     return out
+
+
+def _has_sym(obj):
+    if isinstance(obj, (SReal, SInt, SBool)):
+        return True
+    if isinstance(obj, np.ndarray):
+        return obj.dtype == object
+    if isinstance(obj, (list, tuple)):
+        return any(_has_sym(o) for o in obj)
+    return False
+
+
+def sym_array(obj, dtype=None, **kw):
+    """numpy.array that keeps symbolic elements (ignores a float dtype request for them)."""
+    if _has_sym(obj):
+        return np.array(obj, dtype=object, **{k: v for k, v in kw.items() if k != "dtype"})
+    return np.array(obj, dtype=dtype, **kw)
+
+
+def sym_zeros(shape, dtype=None, **kw):
+    """numpy.zeros whose cells can hold proxies (object dtype, exact 0)."""
+    a = np.empty(shape, dtype=object)
+    a.fill(SReal(0))
+    return a
+
+
+def sym_full(shape, val, dtype=None, **kw):
+    a = np.empty(shape, dtype=object)
+    a.fill(val if isinstance(val, (SReal, SInt)) else SReal(val))
+    return a
+
+
+def sym_ones(shape, dtype=None, **kw):
+    return sym_full(shape, 1)
